@@ -992,7 +992,7 @@ func c11Rest(c *Ctx) {
 				fmt.Sprintf("%s may report the sample it is given before returning (with an error: %v, without: %v); the caller touches that sample afterwards on such a path at %v (the aggregator goroutine already owns it and returns it to the pool)", fn.Name(), errMax > 0, nilMax > 0, bad))
 		}
 	}
-	c.Floor("O11.5", "call sites of sample-reporting helpers", nI, 3)
+	c.Floor("O11.5", "call sites of sample-reporting helpers", nI, 2)
 }
 
 // inGoClosure: fn is a closure whose MakeClosure is the callee of a go statement.
